@@ -150,6 +150,11 @@ def replay_policy(c):
     import zlib
     # limit_rows counts the rows that come out of the casting (a dropped row does not use up the limit)
     limit = 0 if c['policy'] == 'raise' else zlib.crc32(canon(c['tbl']).encode()) % 4
+    # policy raise with the limit exactly in front of the first uncastable row: limit_rows yields exactly the first n rows, the row
+    # after them is none of its business (it must not even be cast)
+    stop_before_bad = c['policy'] == 'raise' and c['raised'] >= 0 and zlib.crc32(canon(c['tbl']).encode()) % 2 == 0
+    if stop_before_bad:
+        limit = c['raised'] + 1
     setup_repo()
     sv = sys.modules['dataflows.base.schema_validator']
     import dataflows as DF
@@ -168,6 +173,14 @@ def replay_policy(c):
             raised = e.cause
         except sv.ValidationError as e:
             raised = e
+        if stop_before_bad:
+            if raised is not None:
+                return dict(ok=False, why='limit_rows=%d ends in front of the uncastable row, yet the load raised' % limit, got=str(raised)[:100])
+            want = [dict(f1=5, f2=5)] + [{fn: (7 if cls == 'lex' else None) for fn, cls in zip(('f1', 'f2'), row)} for row in c['tbl'][:c['raised']]]
+            got = [dict(f1=r.get('f1'), f2=r.get('f2')) for r in rows]
+            if got != want:
+                return dict(ok=False, why='rows with limit_rows=%d in front of the uncastable row differ' % limit, got=got, want=want)
+            return dict(ok=True)
         if c['raised'] >= 0:
             if not isinstance(raised, sv.ValidationError):
                 return dict(ok=False, why='no ValidationError although row %d is uncastable' % c['raised'], got=str(raised)[:100] if raised else rows)
@@ -257,6 +270,29 @@ def selection_cases():
                     out.append(dict(sel=repr(sel), kind=kind, ok=(got == want and rows_ok), got=got, want=want))
                 except Exception as e:
                     out.append(dict(sel=repr(sel), kind=kind, ok=False, got='%s: %s' % (type(e).__name__, str(e)[:100]), want=want))
+        # the string strategies on sources that deliver native values (a data package, a (descriptor, iterators) pair):
+        # every value comes out as its text, a null stays a null (never the text 'None'), and the pipeline still validates
+        from decimal import Decimal
+        typed = [('t', [('a', 'integer'), ('b', 'number'), ('c', 'string')], [dict(a=1, b=Decimal('1.5'), c='x'), dict(a=None, b=None, c=None), dict(a=3, b=Decimal('2'), c='')])]
+        with contextlib.redirect_stdout(io.StringIO()):
+            DF.Flow(tuple_source(typed), DF.dump_to_path(os.path.join(root, 'typed'))).process()
+        import warnings
+        for kw in (dict(infer_strategy='strings', cast_strategy='strings'), dict(cast_strategy='strings'), dict(force_strings=True)):
+            for kind in ('datapackage', 'tuple'):
+                label = 'strings:%s' % ','.join('%s=%s' % kv for kv in sorted(kw.items()))
+                try:
+                    with contextlib.redirect_stdout(io.StringIO()), contextlib.redirect_stderr(io.StringIO()), warnings.catch_warnings():
+                        warnings.simplefilter('ignore')
+                        src = os.path.join(root, 'typed', 'datapackage.json') if kind == 'datapackage' else tuple_source(typed).load_source
+                        ds = DF.Flow(DF.load(src, **kw)).datastream()
+                        rows = [[dict(x) for x in r_] for r_ in ds.res_iter][0]
+                        src = os.path.join(root, 'typed', 'datapackage.json') if kind == 'datapackage' else tuple_source(typed).load_source
+                        DF.Flow(DF.load(src, **kw)).results()           # ... and results() validates them against the descriptor
+                    want = [dict(a='1', b='1.5', c='x'), dict(a=None, b=None, c=None), dict(a='3', b='2', c=None if kind == 'datapackage' else '')]
+                    ok = rows == want and all(type(v) in (str, type(None)) for r_ in rows for v in r_.values())
+                    out.append(dict(sel=label, kind=kind, ok=ok, got=rows, want=want))
+                except Exception as e:
+                    out.append(dict(sel=label, kind=kind, ok=False, got='%s: %s' % (type(e).__name__, str(getattr(e, 'cause', e))[:100]), want='strings / nulls'))
     finally:
         shutil.rmtree(root, ignore_errors=True)
     return out
